@@ -262,8 +262,10 @@ def offsets_table(sysd):
         return txt + "%-10d %-20s %-20d %-20.6f %-20.6f\n" % (0, "nodeH", o, 500.25 - 3 * o, 3.5)
     for r, l in enumerate(looms):
         o = sysd["off"][l - 1] * K(sysd)
-        # only the median is the offset; mean and deviation are made unrelated on purpose
-        txt += "%-10d %-20s %-20d %-20.6f %-20.6f\n" % (r, "node%d" % l, o, 500.25 * (r + 1) - 3 * o, 3.5 + r)
+        # only the median is the offset; mean and deviation are made unrelated on purpose.
+        # The median is a real number for the parser: some tables spell it in exponent or fixed notation
+        med = {"exp": "%.12e" % o, "fix": "%.3f" % o}.get(sysd.get("_offfmt"), "%d" % o)
+        txt += "%-10d %-20s %-20s %-20.6f %-20.6f\n" % (r, "node%d" % l, med, 500.25 * (r + 1) - 3 * o, 3.5 + r)
     return txt
 
 
@@ -622,6 +624,12 @@ def main(pid, tier):
             c2 = json.loads(json.dumps(c))
             c2["_samehost"] = True
             extra_cases.append(c2)
+    #  _offfmt   : notation of the offsets in the table (integer as ovnisync writes it / exponent / fixed)
+    for i, c in enumerate(cases):
+        if i % 4 == 1:
+            c["_offfmt"] = "exp"
+        elif i % 4 == 3:
+            c["_offfmt"] = "fix"
     #  _symlink  : the loom / thread directory of one stream is a symbolic link to a directory elsewhere
     nsl = 0
     for i, c in enumerate(cases):
